@@ -48,15 +48,15 @@ _memo = []  # [(mg, raw, doms, S, A)] most recent first
 def cases(tier, seed):
     out = []
     q = tier == "quick"
-    for k in range(3 if q else 40):
+    for k in range(6 if q else 100):
         for D in (1, 2, 3, 4):
             for kind in ("separable", "coupled", "oscillating"):
                 out.append(("product", {"D": D, "integrand": kind, "k": k}, 1.0 + 3.0 ** D / 8))
                 out.append(("repeated", {"D": D, "integrand": kind, "k": k}, 1.0 + 3.0 ** D / 8))
-    for k in range(4 if q else 48):
+    for k in range(6 if q else 96):
         out.append(("default-chunk", {"D": 2 + k % 3, "repeat": bool(k % 4 == 3), "k": k}, 40.0))
     for what in ("single-point-domains", "zero-weights", "signed-weights", "same-grid-listed", "numpy-int-num-domains", "num-domains-one", "python-float-integrand", "chunk-zero", "huge-chunk"):
-        for k in range(2 if q else 12):
+        for k in range(2 if q else 20):
             out.append(("hostile", {"what": what, "k": k}, 2.0))
     return out
 
